@@ -238,6 +238,154 @@ func init() {
 	})
 }
 
+// ircStepRuns: the one-step exploration of the IRC state machine for all
+// roles (unregistered, client, operator, services link) and all commands.
+func ircStepRuns(entry, tier string, panics bool, extra ...interface{}) []HarnessRun {
+	base := map[string]int{"S": 2, "C": 1, "L": 4, "K": 3, "P": 1, "modelen": 2, "commas": 1}
+	if tier == "thorough" {
+		base = map[string]int{"S": 3, "C": 2, "L": 5, "K": 3, "P": 2, "modelen": 3, "commas": 1, "bans": 2, "secretnil": 1}
+	}
+	base = mergeParams(base, extra...)
+	var runs []HarnessRun
+	names := []string{"unregistered", "client", "oper", "services"}
+	for r, n := range names {
+		run := ircRun(n, entry, mergeParams(base, "role", r))
+		run.Panics = panics
+		runs = append(runs, run)
+	}
+	// services NICK introduces a pseudo-client with at least four parameters
+	nick := ircRun("services-nick", entry, mergeParams(base, "role", 3, "cmd", 5, "K", 4))
+	nick.Panics = panics
+	runs = append(runs, nick)
+	// the remote address of the message differs from the stored one (ban check on address change)
+	addr := ircRun("address-change", entry, mergeParams(base, "role", 1, "cmd", 29, "addr", 1))
+	addr.Panics = panics
+	runs = append(runs, addr)
+	return runs
+}
+
+var ircAssumptions = []string{
+	"pre-state: the symbolic template of DESIGN §4 under the representation invariant (inductive step; C14 shows the invariant is preserved)",
+	"input: an irc.Message with command from the current Commands table (plus one unknown command), 0..K parameters, each an arbitrary ASCII string without CR/LF/NUL of at most L bytes; this over-approximates irc.ParseMessage's output for lines the API accepts",
+	"services lines are protocol-conforming: prefix present where the handler reads it, parameter counts as in the documented example lines",
+	"library code is uninterpreted where it only feeds formatted output (fmt %d/%v, time formatting, hmac, base64, url); regexp.Compile/MatchString on ban patterns are uninterpreted, validNickRe/validChannelRe are unrolled exactly",
+	"irc.Message.Bytes and irc.Prefix.String are exact branch-free summaries of the library functions",
+	"strings ASCII (case mapping); comma lists with at most 2 items; mode strings bounded; strings.Split inputs with at most 3 separators",
+}
+
+func ircBounds(tier string) map[string]interface{} {
+	if tier == "thorough" {
+		return map[string]interface{}{"client_sessions": 3, "services_link": "1 + 2 pseudo-clients (services role)", "channels": 2, "string_bytes": 5, "params": 3, "mode_string_bytes": 3, "bans_per_channel": 2, "map_iteration_order": "canonical (order independence is C01's obligation)"}
+	}
+	return map[string]interface{}{"client_sessions": 2, "services_link": "1 + 1 pseudo-client (services role)", "channels": 1, "string_bytes": 4, "params": 3, "mode_string_bytes": 2, "bans_per_channel": 1, "map_iteration_order": "canonical (order independence is C01's obligation)"}
+}
+
+var ircOutside = []string{"larger templates, longer strings, more parameters than the bound", "non-ASCII case mapping", "the product of several map iteration orders (C01)", "TOML/protobuf/JSON library internals"}
+
+var ircFunctions = []string{"ircserver.(*IRCServer).ProcessMessage", "UpdateLastClientMessageID", "SetLastProcessed", "MaybeDeleteSession", "every cmd*/cmdServer* handler reachable from the Commands table", "send*", "maybeLogin", "verifyCaptcha", "irc.ParseMessage (where handlers call it)"}
+
+func apiPostRedirects() map[string]string {
+	r := repoMod + "/internal/api"
+	return map[string]string{
+		"(*" + r + ".HTTP).applyMessageWait":      "verifStub_applyMessageWait",
+		"(*" + r + ".HTTP).maybeProxyToLeader":    "verifStub_proxy",
+		"(*github.com/hashicorp/raft.Raft).State": "verifStub_raftState",
+		"time.Sleep": "verifStub_sleep",
+	}
+}
+
+func apiRun(name, entry string, params map[string]int) HarnessRun {
+	return HarnessRun{Name: name, Pkg: "internal/api", PkgName: "api", Files: []string{"apipkg/common.go", "apipkg/c11.go", "apipkg/post.go"}, APIs: []string{"http"},
+		Entry: entry, Params: params, Unwind: 10, Redirect: apiPostRedirects(), NoReplay: true}
+}
+
+func init() {
+	registerCheck(&CheckDef{
+		ID: "C06",
+		Runs: func(tier string) []HarnessRun { return ircStepRuns("verifHarness_C06_step", tier, true, "secretnil", 1) },
+		Assumptions: ircAssumptions, Bounds: ircBounds, Outside: ircOutside, Functions: ircFunctions,
+		Rule: "one case per (role, command, parameter count); non-trivial when at least one feasible path runs the step to completion",
+	})
+	registerCheck(&CheckDef{
+		ID: "C14",
+		Runs: func(tier string) []HarnessRun { return ircStepRuns("verifHarness_C14_step", tier, false) },
+		Assumptions: append(append([]string{}, ircAssumptions...), "SVSNICK only onto free nicknames; services NICK introduces syntactically valid, free nicknames (preconditions from the property text)"),
+		Bounds: ircBounds, Outside: ircOutside, Functions: ircFunctions,
+		Rule: "one case per (role, command, parameter count); non-trivial when the invariant obligations are reached",
+	})
+	registerCheck(&CheckDef{
+		ID: "C12",
+		Runs: func(tier string) []HarnessRun {
+			runs := ircStepRuns("verifHarness_C12_step", tier, false)
+			if tier != "thorough" {
+				// recipients of services JOIN/PART need two channels to differ
+				base := map[string]int{"S": 2, "C": 2, "L": 3, "K": 2, "P": 1, "role": 3}
+				runs = append(runs, ircRun("services-join-2chan", "verifHarness_C12_step", mergeParams(base, "cmd", 1)))
+				runs = append(runs, ircRun("services-part-2chan", "verifHarness_C12_step", mergeParams(base, "cmd", 7)))
+			}
+			return runs
+		},
+		Assumptions: ircAssumptions, Bounds: ircBounds, Outside: append(append([]string{}, ircOutside...), "the HTTP-side filter expression (C04)"), Functions: ircFunctions,
+		Rule: "one case per (role, command, parameter count); non-trivial when at least one outgoing line is checked",
+	})
+	registerCheck(&CheckDef{
+		ID: "C13",
+		Runs: func(tier string) []HarnessRun { return ircStepRuns("verifHarness_C13_step", tier, false) },
+		Assumptions: append(append([]string{}, ircAssumptions...), "captcha: HMAC/base64 uninterpreted; the check is that no admitted join bypasses ban/invite/key tests, not cryptographic strength"),
+		Bounds: ircBounds, Outside: ircOutside, Functions: ircFunctions,
+		Rule: "one case per (role, command, parameter count); non-trivial when the frame conditions are evaluated on a completed step",
+	})
+	registerCheck(&CheckDef{
+		ID: "C15",
+		Runs: func(tier string) []HarnessRun {
+			runs := ircStepRuns("verifHarness_C15_step", tier, false)
+			p := map[string]int{"data": p4(tier, 6, 10), "authlen": 3}
+			runs = append(runs, apiRun("post-sanitiser", "verifHarness_C15_post", p), apiRun("delete-sanitiser", "verifHarness_C15_delete", p))
+			return runs
+		},
+		Assumptions: append(append([]string{}, ircAssumptions...), "JSON decoding yields an arbitrary string for Data/Quitmessage (any bytes, bounded length)", "irc.ParseMessage introduces no byte that is not in its input"),
+		Bounds: ircBounds, Outside: append(append([]string{}, ircOutside...), "lines longer than the bound (the 510 truncation is covered by the summary of Message.Bytes)"), Functions: append(append([]string{}, ircFunctions...), "api.(*HTTP).handlePostMessage", "api.(*HTTP).handleDeleteSession"),
+		Rule: "one case per (role, command, parameter count) plus the two sanitiser harnesses; non-trivial when at least one produced line is checked",
+	})
+	registerCheck(&CheckDef{
+		ID: "C10",
+		Runs: func(tier string) []HarnessRun {
+			runs := ircStepRuns("verifHarness_C10_step", tier, false)
+			runs = append(runs, apiRun("post-retry", "verifHarness_C10_post", map[string]int{"data": 4, "authlen": 3}))
+			return runs
+		},
+		Assumptions: append(append([]string{}, ircAssumptions...), "raft is replaced by a recording stub: a proposal is observed, not committed", "persistence of the marker across snapshot/restore is C03's sessions obligation; the MessageOfDeath case is C07's replay half"),
+		Bounds: ircBounds, Outside: append(append([]string{}, ircOutside...), "retries racing with the first copy (excluded by the property)", "the bridge"), Functions: append(append([]string{}, ircFunctions...), "api.(*HTTP).handlePostMessage", "ircserver.(*IRCServer).LastPostMessage"),
+		Rule: "one case per (role, command, parameter count) plus the retry cases of the POST handler",
+	})
+	registerCheck(&CheckDef{
+		ID: "C17",
+		Runs: func(tier string) []HarnessRun {
+			runs := ircStepRuns("verifHarness_C17_step", tier, false)
+			runs = append(runs, ircRun("lookup", "verifHarness_C17_lookup", map[string]int{"S": 2, "C": 1, "L": 3}), ircRun("expiry", "verifHarness_C17_expire", map[string]int{"S": p4(tier, 2, 3), "C": 1, "L": 3, "link": 1, "P": 1}))
+			return runs
+		},
+		Assumptions: append(append([]string{}, ircAssumptions...), "every session id is at most the id of the newest applied entry (ids are raft indexes)", "time.Now is an arbitrary instant for the expiry sweep"),
+		Bounds: ircBounds, Outside: append(append([]string{}, ircOutside...), "the leader-only timer loop in main()"), Functions: append(append([]string{}, ircFunctions...), "ircserver.(*IRCServer).GetSession", "getSessionLocked", "ExpireSessions"),
+		Rule: "one case per (role, command, parameter count) plus lookup and expiry harnesses",
+	})
+	registerCheck(&CheckDef{
+		ID: "C16",
+		Runs: func(tier string) []HarnessRun {
+			return []HarnessRun{
+				apiRun("post-config", "verifHarness_C16_post", map[string]int{"authlen": 3}),
+				{Name: "apply-config", Pkg: "", PkgName: "main", Files: []string{"main/c16.go", "main/c07.go"}, SymFiles: []string{"main/tmp_sym.go"}, NatFiles: []string{"main/tmp_native.go"},
+					Entry: "verifHarness_C16_apply", Unwind: 8, Redirect: map[string]string{repoMod + "/internal/config.FromString": "verifStub_configFromString"}, NoReplay: true},
+			}
+		},
+		Assumptions: []string{"the TOML decoder is a function of its input (stub returning an arbitrary configuration or an error)", "raft replaced by a recording stub", "serialization of the configuration is C03's obligation (incl. the WhitelistedOrigins finding); GLINE's write to Config.Banned is checked by C13"},
+		Bounds:      func(tier string) map[string]interface{} { return map[string]interface{}{"requests": 1, "entries": 1} },
+		Outside:     []string{"TOML semantics", "concurrent posts", "GET /config encoding"},
+		Functions:   []string{"api.(*HTTP).handlePostConfig", "api.(*HTTP).applyConfig", "main.(*FSM).applyRobustMessage (Config case)"},
+		Rule:        "cases: parsable / unparsable body; matching / stale revision; leader / follower",
+	})
+}
+
 func p4(tier string, q, t int) int {
 	if tier == "thorough" {
 		return t
